@@ -19,13 +19,13 @@ CLAIMS = {
     'C07': ('proof', 'LinearForm kernels (sizes 1..6) equal the exact integral; LinearForm::evaluate with an abstract operator returns the prefix sum of the per-interval integrals over exactly the intervals of the support (quantified prefix-sum axiom, unbounded number of intervals), 0 for an interval-free spline.', '4 C07'),
     'C08': ('proof', 'Every entry point under contract that takes two splines or a spline factor carries the clause "grids logically different => DIFFERING_GRIDS" (calcUnion, calcIntersection, +, -, *, +=, -=, BilinearForm::evaluate, SplineOperator::transform), in-place forms additionally "target unchanged". Logical equality is a ghost relation, so distinct objects with equal points are the same grid by construction. linearCombination has the clause only in a BOUNDED stand-in (at most 3 splines); integrate() is not under contract.', '4 C08'),
     'C10': ('proof', 'grid_valid / support_valid / spline_valid are required and ensured by the contracts of constructors, moves (moved-from objects are valid and interval-free), assignments, arithmetic and operator application, including the exceptional exits; every history follows by induction over its length (encapsulation is a meta-argument). Aliasing cases (self-move, self-assignment) are not modelled.', '4 C10'),
-    'C11': ('proof', 'Witness-style iff contracts for the Grid constructors (exact and IEEE semantics, so NaN is covered; "valid input is never refused" with a quantified hypothesis), Support and Spline constructors / setData / checkValidity. Generator: too few knots, decreasing knots, knots missing from a supplied grid are refused and the smallest admissible vectors accepted. linearCombination: BOUNDED stand-in (size mismatch, no data, differing grids refused; everything else accepted, at most 3 splines). interpolate is not under contract.', '4 C11'),
+    'C11': ('proof', 'Witness-style iff contracts for the Grid constructors (exact and IEEE semantics, so NaN is covered; "valid input is never refused" with a quantified hypothesis), Support and Spline constructors / setData / checkValidity. Generator: too few knots, decreasing knots, knots missing from a supplied grid are refused and the smallest admissible vectors accepted. linearCombination: BOUNDED stand-in (size mismatch, no data, differing grids refused; everything else accepted, at most 3 splines). interpolate<order 1..3> over an abstract solver: count mismatch, fewer than two points, a boundary derivative order outside 1..order are refused with the documented codes, everything else is accepted (loop contracts, any number of nodes).', '4 C11'),
     'C13': ('proof', 'Every Support/Grid index function is under a whole-result contract (64-bit machine arithmetic, wrap-around included) discharged for all grids, windows and all 2^64 index values; the algebraic laws (commutative, associative, idempotent, smallest hull, inverse conversions, consistent views, equality laws) are lemmas proved from those contracts only. Stronger than the statement\'s "grids up to a size bound".', '4 C13'),
     'C14': ('proof', 'Frame conditions: every non-mutating operation has an assigns clause listing at most the exception flag (dfcc checks every write), in-place operators ensure "threw => target unchanged", setData validates before overwriting, the ghost heap of grid vectors is only written by allocation of a fresh slot (frame clause of the Grid constructor). Storage sharing between splines cannot be expressed (by-value extraction).', '4 C14'),
     'C15': ('proof', 'isZero (both directions, the converse with a quantified hypothesis), checkOverlap (true iff the windows share an interval, for logically equal grids), Spline/Support/Grid equality and inequality in witness form; reflexive/symmetric/transitive/copy laws as lemmas.', '4 C15'),
     'C19': ('other', 'A contract on the type parameter: an archetype scalar offering only the documented operations (explicit integral constructor, four arithmetic operators with compound forms, unary minus, six comparisons, no implicit conversions) instantiates every core template and generic interpolate, calling every public operation; decided by the C++ type checker of clang and gcc. Type checking, not CBMC, and labelled so.', '4 C19'),
     'C01': ('proof', 'The induction that makes the generated functions the Cox-de Boor B-splines, piece by piece: (base) the constructor establishes the class invariant "grid = knots without duplicates" at the arbitrary knot index (assumed contract of std::unique) and refuses decreasing knots; the order-0 functions are the indicators of [t_l, t_l+1) (interval-free for zero-width spans); (step) applyRecursionRelation<k>, k = 2, 3, returns exactly [t_i+p > t_i] (x - t_i)/(t_i+p - t_i) s_i + [t_i+p+1 > t_i+1] (t_i+p+1 - x)/(t_i+p+1 - t_i+1) s_i+1 on every interval, proved from the contracts of the real operator expression tree; (wiring) generateBSplines<0>, <1>: refusal of too few knots, count m-p-1, every step called with valid neighbouring lower-order splines. NOT proved: that element l of generateBSplines<p>, p >= 1, is the step of elements l, l+1 (quantified invariant over a vector of splines, undecided by cvc5/z3 unboundedly and in a 5-element instance), orders >= 2 of the wiring, the corollaries (partition of unity, smoothness: classical consequences of the recursion).', '4 C01'),
-    'C09': ('proof', 'Not separate contracts but the safety obligations of EVERY block of every other check: array bounds, the STL preconditions asserted by the shim (vector[] / front / back / iterator range, optional dereference, shared_ptr dereference), unsigned-to-signed conversions, signed overflow, division by zero, plus "throws for every index outside the view" for the checked accessors over all 2^64 index values. A read of uninitialised coefficients makes a whole-result postcondition fail. Dangling references, allocation failure, Eigen/boost code and the functions not under contract (interpolate, integrate) are not covered; linearCombination only in its bounded stand-in.', '4 C09'),
+    'C09': ('proof', 'Not separate contracts but the safety obligations of EVERY block of every other check: array bounds, the STL preconditions asserted by the shim (vector[] / front / back / iterator range, optional dereference, shared_ptr dereference), unsigned-to-signed conversions, signed overflow, division by zero, plus "throws for every index outside the view" for the checked accessors over all 2^64 index values. A read of uninitialised coefficients makes a whole-result postcondition fail. Dangling references, allocation failure, Eigen/boost code integrate() and the bundled Eigen/Armadillo adapters are not covered; linearCombination only in its bounded stand-in; interpolate over an abstract solver, including that every write to the linear system lies inside it.', '4 C09'),
     'C13x': None,
 }
 CLAIMS.pop('C13x')
@@ -40,7 +40,7 @@ NA = {
 }
 
 NA.update({
-    'C12': 'interpolate() is not within reach of the translator as built (virtual solver interface returning references that are assigned through, a symbolic-size linear system); the bounded stand-in planned in DESIGN.md 3.7 was not built, and the sentence about the bundled dense solver is floating point + Eigen/Armadillo',
+    'C12': 'only the part of the statement that is interpolate()\'s own bookkeeping is under contract (contracts/interp.ctr, checked under C11/C10/C09: validation, every write to the system inside its bounds, the result is the solver\'s solution block by block on the given support, the default boundary set): WHAT the assembled rows say -- value, continuity and boundary equations in midpoint coordinates -- is not specified, because the solver is abstract and a ghost matrix with a row-wise specification was not built; the sentence about the bundled dense solver is floating point + Eigen/Armadillo',
     'C20': 'numerical outcomes of the Eigen-based example programs (boundary values attained, eigenvalue shifts, n+1/2, -1/n^2) are outside any contract within reach; the opaque-Eigen extraction of the examples was not built',
 })
 PENDING = 'not claimed yet: the contracts for this property are not built in this revision'
